@@ -55,6 +55,7 @@ type Desc struct {
 	// transport reads; session i is a pure function of (Seed, i, ErrPm, ReusePm)
 	ErrPm   int `json:"err_pm,omitempty"`   // per-mille: a run of failing transport reads starts at a step
 	ReusePm int `json:"reuse_pm,omitempty"` // per-mille of sessions whose transport re-uses one read buffer
+	AuthPm  int `json:"auth_pm,omitempty"`  // per-mille of sessions opened through Channel.Open with in-channel (telnet/ssh) authentication
 
 	// seq: histories Lo..Hi-1 of length Len (base-6 numbering over Enqueue Dequeue DequeueAll Requeue GetDepth RequeueOldestHeld)
 	Ops int   `json:"ops,omitempty"` // 6, or 7 (with EnqueueEmpty)
@@ -123,7 +124,7 @@ func gen(tier string, seed int64) []mon.Case {
 		add("lin", Desc{Kind: "lin", Seed: r.Int63n(1 << 40), Histories: perLin, MaxOps: 40, PYieldPm: pick(r, 0, 100, 400)})
 	}
 	for i := 0; i < nChan; i++ {
-		add("chan", Desc{Kind: "chan", Seed: r.Int63n(1 << 40), Histories: perChan, MaxOps: pick(r, 20, 40, 60), ErrPm: pick(r, 0, 60, 150, 150), ReusePm: 500})
+		add("chan", Desc{Kind: "chan", Seed: r.Int63n(1 << 40), Histories: perChan, MaxOps: pick(r, 20, 40, 60), ErrPm: pick(r, 0, 60, 150, 150), ReusePm: 500, AuthPm: 250})
 	}
 	// sequential: lengths 1..maxLen-2 in one case each ... the two longest lengths are split
 	seqCases := func(base, maxLen int) {
@@ -357,6 +358,8 @@ func init() {
 			"order of several outstanding put-backs: from the statement's words 'putting a chunk back at the front' and 'put-back chunks re-read first' every put-back becomes the first element, i.e. after Requeue(a), Requeue(b) the queue reads b, a, then the rest - through Dequeue and through DequeueAll alike (this is also what the unchanged library's prepend does); stress runs put back most-recently-taken first, which restores the producer's stream order; lin and sequential histories also put back the oldest held chunk (reference: the deque)",
 			"queue-level families: chunks are never modified after Enqueue; a chunk may be EMPTY (non-nil, zero length: what the read loop enqueues for a transport read made only of carriage returns): it is one element like any other - Dequeue takes exactly one element and returns it (empty, non-nil, as the unchanged library does), depth counts it; DequeueAll of only empty chunks returns nothing, as nil or as an empty slice (bytes.Join); put-backs are non-empty in stress runs",
 			"deep queues: stress runs in which the consumer lets >= 8192 / >= 20000 chunks pile up while the unthrottled producer keeps enqueueing, then Dequeue, (producer refills), put-back(s), DequeueAll or a Dequeue drain; the reference is unchanged (unbounded or bounded, every produced byte arrives and no party stays parked)",
+			"channel level, bytes >= 0x80: transport reads with arbitrary bytes (invalid UTF-8, Latin-1, every byte value except ESC), whole multi-byte characters and characters split by the read boundary hold no escape sequence; what comes out must equal what went in minus the carriage returns, byte for byte",
+			"channel level, in-channel authentication (a quarter of the sessions): Channel.Open over a device model that asks for telnet (Username:/Password:) or ssh (password:) authentication; the prompts are complete only with their last byte, post-login lines contain blanks and no 'login:'/'username:'/'password:', the device is silent after its prompt until the check that follows Open is done; expectation from the unchanged library: what was read past the password prompt is put back as ONE chunk (depth 1 right after Open) and is read exactly once, later output follows in order",
 			"channel level: a transport read made only of escape sequences is enqueued by the unchanged read loop as a NIL chunk (regexp ReplaceAll yields nil), which Read hands out as 'nothing' while the depth goes down by one; the per-element oracle allows exactly that and 'nothing' is only taken for 'empty' when the depth is 0",
 			"channel-level family (real channel.Channel, read loop as producer, Channel.Read/ReadAll as consumer): the scripted transport fails only with one non-EOF error value and never ends; a failing transport read takes nothing out of the queue and loses nothing (taken from the unchanged library: Read returns the error from Errs / the persisting-error flag and leaves the queue intact, ReadAll only the one from Errs), so every byte delivered comes out exactly once, in order, with CR and the escape sequences of a fixed family removed; a transport may re-use one read buffer across reads (transport.Implementation returns []byte and says nothing about ownership; the unchanged channel copies every chunk, so such a transport works); slices returned by Read/ReadAll belong to the caller and are re-compared at the end of the session",
 			"race detector: a report is attributed to the property when it occurs in a worker of this check; one deliberate canary race in harness code per worker proves the log pipeline and is excluded",
